@@ -138,7 +138,8 @@ Proof.
   all: try (rewrite Nat.eqb_refl in Hm; discriminate Hm).
   all: try (split_ands; discriminate).
   all: eexists; split; [reflexivity|]; proj_simp.
-  all: try (apply tstate_eqb_eq in Heqb; subst new; unfold probe_next; destruct (t_st x); congruence).
+  all: try (split_ands; match goal with H : tstate_eqb ?nw (probe_next _ _) = true |- _ => apply tstate_eqb_eq in H; subst nw end;
+            unfold probe_next; destruct (t_st x); congruence).
   all: destruct new; try congruence; rewrite Nat.eqb_refl in Hm; discriminate.
 Qed.
 
@@ -154,7 +155,8 @@ Proof.
   all: try (rewrite Nat.eqb_refl in Hm; discriminate Hm).
   all: try (split_ands; discriminate).
   all: eexists; split; [reflexivity|]; proj_simp.
-  all: try (apply tstate_eqb_eq in Heqb; subst new; unfold probe_next; reflexivity).
+  all: try (split_ands; match goal with H : tstate_eqb ?nw (probe_next _ _) = true |- _ => apply tstate_eqb_eq in H; subst nw end;
+            unfold probe_next; reflexivity).
 Qed.
 
 Lemma step_stays_out : forall s e s' lb b t,
